@@ -131,106 +131,4 @@ theorem lig_run_step_correct (fx : Fixes) (root : Nat) (named : String → Looku
     · simp at hst
     · simp [buildLig] at hst; subst hst; intros; rfl
 
-/-- a substitution lookup of the source for which the per-lookup correctness is proved -/
-def GsubRunOk (rules : List Rule) : Prop :=
-  ((headKind rules).isMapGsub = true ∧ (rules.flatMap Wf.targets).Nodup) ∨
-  (headKind rules = .ligature ∧ (rules.flatMap Wf.ligSeqs).Nodup ∧
-    ∀ r ∈ rules, ∀ ts x, r = Rule.ligature ts x → ts ≠ [])
-
-/-- a positioning lookup of the source for which the per-lookup correctness is proved -/
-def GposRunOk (rules : List Rule) : Prop :=
-  headKind rules = .spos ∧ (rules.flatMap Wf.targets).Nodup
-
-theorem builtLookups_nonchain (cf : CFlag) (b : Builder) (h : b.kind ≠ .chain) : builtLookups cf b = [buildLookup cf b] := by
-  cases b <;> simp_all [builtLookups, Builder.kind]
-
-/-- **A substitution run at its id** (single / multiple / alternate / ligature): the table lookup
-    does to every string what the source lookup does. -/
-theorem run_applyGsub_correct (fx : Fixes) (gdefSrc : List (Glyph × Nat)) (aIds fIds : List (List Glyph))
-    (f : Flag) (rules : List Rule) (n : Nat) (ls : List OT.Lookup) (t : OT.Tables)
-    (hc : CompiledRun fx aIds fIds f rules (.gsub n) ls) (hp : Placed t.gsub.lookups t.gpos.lookups (.gsub n) ls)
-    (hgdef : t.gdef = gdefOf gdefSrc aIds fIds)
-    (hok : GsubRunOk rules)
-    (hg : (gdefSrc.map (·.1)).Nodup) (ha : (aIds.flatMap id).Nodup)
-    (alt : Nat) (env : String → Option Src.Lookup) (name : Option String) :
-    ∃ L, t.gsub.lookups[n]? = some L ∧
-      ∀ str, OT.applyGsub t alt L str = Src.applyGsub gdefSrc alt env ⟨name, f, rules⟩ str := by
-  obtain ⟨hne, hk, _, cf, named, root, hcf, _, hls⟩ := hc
-  have hkind : (rules.foldl (Builder.add fx root named) (Builder.new (headKind rules))).kind ≠ .chain := by
-    rw [Builder.foldl_add_kind, Builder.new_kind]
-    rcases hok with ⟨hmap, _⟩ | ⟨hl, _⟩
-    · intro e; rw [e] at hmap; simp [Kind.isMapGsub] at hmap
-    · rw [hl]; simp
-  rw [builtLookups_nonchain cf _ hkind] at hls
-  subst hls
-  refine ⟨_, hp.head, fun str => ?_⟩
-  have hign : ∀ g, OT.ignored t.gdef cf.1 cf.2 g = Src.ignored gdefSrc f g := by
-    intro g; rw [hgdef]; exact ignored_correct gdefSrc aIds fIds cf f hg ha hcf g
-  simp only [OT.applyGsub, Src.applyGsub]
-  rw [OT.pass_eq_src]
-  apply Src.pass_congr
-  · intro g
-    simp only [OT.Lookup.ign, buildLookup]
-    exact hign g
-  · intro rev g suf
-    rcases hok with ⟨hmap, hnd⟩ | ⟨hl, hnd, hcomp⟩
-    · exact map_run_step_correct fx root named rules (headKind rules) hne hk hmap hnd gdefSrc env f name t.gdef cf alt _ _ rev g suf
-    · rw [hl] at hk ⊢
-      exact lig_run_step_correct fx root named rules hne hk hnd hcomp gdefSrc env f name t.gdef cf hign alt _ _ rev g suf
-
-/-- **A single-positioning run at its id.** -/
-theorem run_applyGpos_correct (fx : Fixes) (gdefSrc : List (Glyph × Nat)) (aIds fIds : List (List Glyph))
-    (f : Flag) (rules : List Rule) (n : Nat) (ls : List OT.Lookup) (t : OT.Tables)
-    (hc : CompiledRun fx aIds fIds f rules (.gpos n) ls) (hp : Placed t.gsub.lookups t.gpos.lookups (.gpos n) ls)
-    (hgdef : t.gdef = gdefOf gdefSrc aIds fIds)
-    (hkind : headKind rules = .spos) (hnd : (rules.flatMap Wf.targets).Nodup)
-    (hg : (gdefSrc.map (·.1)).Nodup) (ha : (aIds.flatMap id).Nodup) (name : Option String) :
-    ∃ L, t.gpos.lookups[n]? = some L ∧
-      ∀ str, OT.applyGpos t L str = Src.applyGpos gdefSrc ⟨name, f, rules⟩ str := by
-  obtain ⟨hne, hk, _, cf, named, root, hcf, _, hls⟩ := hc
-  rw [hkind] at hk hls
-  have hkb : (rules.foldl (Builder.add fx root named) (Builder.new .spos)).kind ≠ .chain := by
-    rw [Builder.foldl_add_kind, Builder.new_kind]; simp
-  rw [builtLookups_nonchain cf _ hkb] at hls
-  subst hls
-  refine ⟨_, hp.head_gpos, fun str => ?_⟩
-  simp only [OT.applyGpos, Src.applyGpos]
-  rw [OT.ppass_eq_src]
-  apply Src.ppass_congr
-  · intro g
-    simp only [OT.Lookup.ign, buildLookup, hgdef]
-    exact ignored_correct gdefSrc aIds fIds cf f hg ha hcf g
-  · intro rev x suf
-    have hsk : Src.Lookup.kind ⟨name, f, rules⟩ = .spos := by
-      cases rules with
-      | nil => exact absurd rfl hne
-      | cons r rs => simp [Src.Lookup.kind, hk r (by simp)]
-    simp only [Src.posStep, hsk, OT.posLookupStep, buildLookup]
-    exact spos_lookup_correct fx root named rules hk hnd _ rev x suf
-
-/-! a decidable form of the per-lookup conditions -/
-
-def ligHasComps : Rule → Bool
-  | .ligature [] _ => false
-  | _ => true
-
-/-- the lookup is of a type, and satisfies the conditions, for which correctness is proved -/
-def runOkB (rules : List Rule) : Bool :=
-  ((headKind rules).isMapGsub && decide (rules.flatMap Wf.targets).Nodup)
-  || (headKind rules == .ligature && decide (rules.flatMap Wf.ligSeqs).Nodup && rules.all ligHasComps)
-  || (headKind rules == .spos && decide (rules.flatMap Wf.targets).Nodup)
-
-theorem runOk_of_runOkB (rules : List Rule) (h : runOkB rules = true) : GsubRunOk rules ∨ GposRunOk rules := by
-  simp only [runOkB, Bool.or_eq_true, Bool.and_eq_true, decide_eq_true_eq, beq_iff_eq, List.all_eq_true] at h
-  rcases h with (⟨h1, h2⟩ | ⟨⟨h1, h2⟩, h3⟩) | ⟨h1, h2⟩
-  · exact Or.inl (Or.inl ⟨h1, h2⟩)
-  · refine Or.inl (Or.inr ⟨h1, h2, ?_⟩)
-    intro r hr ts x e
-    have := h3 r hr
-    subst e
-    cases ts with
-    | nil => simp [ligHasComps] at this
-    | cons _ _ => simp
-  · exact Or.inr ⟨h1, h2⟩
-
 end Fontc.FeaCompile
